@@ -1154,6 +1154,12 @@ func (e *Entry) Augment(addErrors bool) (processed, skipped int) {
 			unapplied = append(unapplied, a)
 			continue
 		}
+		if !target.IsDir() {
+			// A leaf, leaf-list, anyxml etc. cannot be augmented.
+			e.errorf("%s: augment %s: target cannot have child nodes", Source(a.Node), a.Name)
+			processed++
+			continue
+		}
 		// Augments do not have a prefix we merge in, just a node.
 		// We retain the namespace from the original context of the
 		// augment since the nodes have this namespace even though they
